@@ -10,6 +10,8 @@ CONSTANTS
   Ev1Set = {}
   WfcBudget = 2
   Answerer = FALSE
+  MaxFlaps = 3
+  IceFailFallback = TRUE
   Ev2Set = {}
   MaxSilent = 8
 VIEW tview
